@@ -53,7 +53,7 @@ def gen_tree(rng: Any, *, max_depth: int = 4, max_fanout: int = 4, max_nodes: in
     def make(path: str, alias: str, depth: int) -> None:
         shape = rng.choice(["none", "prepare", "start", "both", "both", "start"])
         node = {"path": path, "alias": alias, "has_prepare": shape in ("prepare", "both"), "has_start": shape in ("start", "both"),
-                "prepare": [], "start": [], "children": [], "via_config": rng.random() < 0.4, "methods_in_base": rng.random() < 0.3, "methods_attached_late": rng.random() < 0.2,
+                "prepare": [], "start": [], "children": [], "via_config": rng.random() < 0.4, "methods_in_base": rng.random() < 0.3, "fragile_repr": rng.random() < 0.2, "methods_attached_late": rng.random() < 0.2,
                 "naming": rng.choice(["class", "class", "class", "ref", "entrypoint"]),
                 # start() written as an async generator under @context_teardown (the usual pattern in asphalt components)
                 "start_ctx_teardown": rng.random() < 0.3}
@@ -306,6 +306,16 @@ def schedule(tree: dict[str, Any]) -> dict[str, Any]:
 # --------------------------------------------------------------------------- interpretation
 
 
+class Deferred:
+    """an awaitable that is not a coroutine object (what a future, a gather() or a lazily connecting client looks like)"""
+
+    def __init__(self, coro: Any) -> None:
+        self.coro = coro
+
+    def __await__(self) -> Any:
+        return self.coro.__await__()
+
+
 class Value:
     """resource values; about a third of them are *falsy* objects (like an empty registry or mapping)"""
 
@@ -339,6 +349,10 @@ class Run:
         self.sub_published: dict[str, Any] = {}
         self.via_inject = 0
         self.annotated_factories = 0
+        self.awaitable_object_factories = 0
+        self.fragile_reprs = 0
+        self.printable: set[str] = set()
+        self.awaitable_object_teardowns = 0
         self.caller_ctx: Any = None
         self.crash: BaseException | None = None
         self.left_exc: BaseException | None = None
@@ -375,6 +389,15 @@ class Run:
                     self.add_component(nodes[c]["alias"], run.type_arg(c), **run.extra_kwargs(c))
 
             ns: dict[str, Any] = {"__init__": __init__}
+            if node.get("fragile_repr") and node.get("naming") != "entrypoint":
+                # a component that cannot be printed before its start() has run (a dataclass with a field(init=False), say)
+                def __repr__(self: Any) -> str:
+                    if path not in run.printable:
+                        raise AttributeError(f"component {path!r} has no attribute 'connection' yet")
+                    return f"<component {path}>"
+
+                ns["__repr__"] = ns["__str__"] = __repr__
+                run.fragile_reprs += 1
             methods: dict[str, Any] = {}
             for phase in ("prepare", "start"):
                 if node[f"has_{phase}"]:
@@ -469,6 +492,8 @@ class Run:
             except BaseException as e:
                 run.log("phase-abort", path, phase=phase, exc=describe_exc(e), cancelled=is_cancellation(e))
                 raise
+            if phase == "start":
+                run.printable.add(path)
             run.log("phase-end", path, phase=phase)
 
         if phase == "start" and node.get("start_ctx_teardown"):
@@ -515,6 +540,17 @@ class Run:
             if r["teardown"]:
                 def td(rid: str = rid) -> None:
                     run.log("teardown-run", f"res{rid}")
+
+                if int(rid) % 4 == 1:
+                    # a plain callable whose cleanup only happens when the awaitable object it returns is awaited
+                    async def later(rid: str = rid) -> None:
+                        await checkpoint()
+                        run.log("teardown-run", f"res{rid}")
+
+                    def td(rid: str = rid) -> Any:  # type: ignore[misc]
+                        return Deferred(later())
+
+                    self.awaitable_object_teardowns += 1
             if r["kind"] == "factory":
                 def factory(rid: str = rid) -> Any:
                     run.factory_calls[rid] = run.factory_calls.get(rid, 0) + 1
@@ -542,6 +578,14 @@ class Run:
                     afactory.__annotations__["return"] = Union[type(f"Extra{rid}", (), {}), T]
                     add_resource_factory(afactory, r["given_name"])
                     self.annotated_factories += 1
+                elif int(rid) % 3 == 1:
+                    # an ordinary callable handing back an awaitable that is not a coroutine (a lazily connecting client, a
+                    # future): its product is what awaiting that yields
+                    def lazy_factory(make: Any = afactory) -> Any:
+                        return Deferred(make())
+
+                    add_resource_factory(lazy_factory, r["given_name"], types=[T])
+                    self.awaitable_object_factories += 1
                 else:
                     add_resource_factory(afactory, r["given_name"], types=[T])
             else:
@@ -876,6 +920,12 @@ def check_success(run: Run, *, exact_schedule: bool = True) -> tuple[list[dict[s
         inc("optional_lookups_through_inject", run.via_inject)
     if run.annotated_factories:
         inc("factories_typed_by_a_union_return_annotation", run.annotated_factories)
+    if run.fragile_reprs:
+        inc("components_whose_repr_raises_before_start", run.fragile_reprs)
+    if run.awaitable_object_factories:
+        inc("factories_returning_an_awaitable_object", run.awaitable_object_factories)
+    if run.awaitable_object_teardowns:
+        inc("teardown_callbacks_returning_an_awaitable_object", run.awaitable_object_teardowns)
     for sub_id in run.sub_published:
         got = run.visible_after.get("sub:" + sub_id)
         if got is not None:
